@@ -193,7 +193,13 @@ class _ExactLanguageSearch:
         finally:
             parser._settings.RELATIVE_BASE = original_relative_base
         parser._settings = Settings()
-        return list(zip(substrings, [i[0]["date_obj"] for i in parsed]))
+        # when the original and the simplified tokens cannot be aligned, a
+        # date may be left without any text of its own: that is not a hit
+        return [
+            (substring, parsed_item[0]["date_obj"])
+            for substring, parsed_item in zip(substrings, parsed)
+            if substring.strip()
+        ]
 
 
 class DateSearchWithDetection:
